@@ -150,3 +150,24 @@ Example fetch_static_unsorted_differs :
 Proof. vm_compute. discriminate. Qed.
 
 Print Assumptions g_mem_fetch_static_eq.
+
+(* ------------------------------------------------------------------------------------------ *)
+(* headline theorems of the property files restated on the GENERATED definitions              *)
+From CG Require Import Proofs.Stored.
+
+Theorem src_stored_complete : forall store a b rv x,
+  sorted_key store = true -> In x store -> wf_ivl x -> overlaps_win a b x ->
+  In x (g_mem_fetch_static store a b rv).
+Proof.
+  intros store a b rv x Hs Hx Hw Ho.
+  rewrite g_mem_fetch_static_eq by (apply sorted_key_sorted_start; exact Hs).
+  apply fetch_static_complete; assumption.
+Qed.
+Print Assumptions src_stored_complete.
+
+Theorem src_stored_is_model_on_built_stores : forall evs a b rv,
+  g_mem_fetch_static (sl_build evs) a b rv = fetch_static (sl_build evs) a b rv.
+Proof.
+  intros. apply g_mem_fetch_static_eq. apply sorted_key_sorted_start, sl_build_sorted.
+Qed.
+Print Assumptions src_stored_is_model_on_built_stores.
